@@ -2088,6 +2088,8 @@ void sexp_string_utf8_set (sexp ctx, sexp str, sexp index, sexp ch) {
     old_len, new_len, len;
   p = (unsigned char*)sexp_string_data(str) + i;
   old_len = sexp_utf8_initial_byte_count(*p);
+  if (old_len > (int)sexp_string_size(str) - i)  /* a lead byte cut off by the end of the string */
+    old_len = (int)sexp_string_size(str) - i;
   new_len = sexp_utf8_char_byte_count(c);
   if (sexp_copy_on_writep(str) || old_len != new_len) { /* resize bytes if needed */
     len = sexp_string_size(str)+(new_len-old_len);
